@@ -1,10 +1,10 @@
 package main
 
 import (
-	"sort"
 	"fmt"
 	"go/token"
 	"go/types"
+	"sort"
 	"strings"
 
 	"golang.org/x/tools/go/ssa"
@@ -763,11 +763,12 @@ func checkCacheBeforeBroadcast(p *Prog, r *Roles, w *watchRoles, res *Result) {
 
 // checkHandOffAliasing: a slice that has been handed to another goroutine through a channel (directly, or inside a
 // message built for the send) must not be written by the sender afterwards.
-//  (i)  local buffers: after the send, no element store into (a re-slice of) the same backing slice is reachable
-//       without passing the allocation of that slice again (a buffer allocated once outside the loop and sent as
-//       buf[:n] is overwritten by the next iteration);
-//  (ii) buffers kept in a struct field: a field whose value is handed off is never "emptied" by re-slicing
-//       (f = f[:0] keeps the array that the receiver is still reading); it is replaced by a fresh allocation.
+//
+//	(i)  local buffers: after the send, no element store into (a re-slice of) the same backing slice is reachable
+//	     without passing the allocation of that slice again (a buffer allocated once outside the loop and sent as
+//	     buf[:n] is overwritten by the next iteration);
+//	(ii) buffers kept in a struct field: a field whose value is handed off is never "emptied" by re-slicing
+//	     (f = f[:0] keeps the array that the receiver is still reading); it is replaced by a fresh allocation.
 func checkHandOffAliasing(p *Prog, res *Result, rule string, pkgs ...string) {
 	inPkgs := func(f *ssa.Function) bool {
 		for _, rel := range pkgs {
